@@ -234,6 +234,11 @@ pub fn values(s: &S, env: &Env, level: usize, depth: usize) -> Vec<V> {
                     out.push(V::Array(vec![iv[i].clone(), iv[(i + 1) % n].clone()]));
                 }
                 out.push(V::Array(vec![iv[0].clone(), iv[n - 1].clone(), iv[n / 2].clone()]));
+                if depth == 0 {
+                    // block-count varint boundary: 63 | 64 items
+                    out.push(V::Array((0..63).map(|i| iv[i % n].clone()).collect()));
+                    out.push(V::Array((0..64).map(|i| iv[i % n].clone()).collect()));
+                }
             } else if level == 1 {
                 out.push(V::Array(vec![iv[0].clone(), iv[n - 1].clone()]));
                 out.push(V::Array(vec![iv[n - 1].clone(), iv[0].clone(), iv[n / 2].clone()]));
@@ -254,6 +259,9 @@ pub fn values(s: &S, env: &Env, level: usize, depth: usize) -> Vec<V> {
                 out.push(V::Map(vec![("a".into(), iv[0].clone()), ("é".into(), iv[n - 1].clone())]));
                 if level == 0 {
                     out.push(V::Map(vec![("".into(), iv[n - 1].clone()), ("a".into(), iv[0].clone()), ("k".repeat(64), iv[n / 2].clone())]));
+                    if depth == 0 {
+                        out.push(V::Map((0..64).map(|i| (format!("k{i:02}"), iv[i % n].clone())).collect()));
+                    }
                 }
             } else {
                 out.truncate(2);
